@@ -556,7 +556,7 @@ def _triple(d):
     return (d['scheme'], d['value'], d['version'])
 
 
-def _dict_histories(ctx, objs, alias, reqs, pending):
+def _dict_histories(ctx, objs, alias, reqs, pending, only_idx=None):
     """histories of insertions / look-ups / deletions on ONE dict or set whose keys are codes of both classes
     (same scheme+value under different meanings, versions and classes; sometimes both sides of a retired alias)"""
     by_sv = {}
@@ -564,7 +564,9 @@ def _dict_histories(ctx, objs, alias, reqs, pending):
         by_sv.setdefault((d['scheme'], d['value']), []).append((d, o))
     svs = sorted(by_sv)
     alias_svs = set(alias) | set(alias.values())
-    for idx in range(ctx.n(120, 1500)):
+    for idx in range(ctx.n(120, 1500) if only_idx is None else only_idx + 1):
+        if only_idx is not None and idx != only_idx:
+            continue
         r = ctx.rng('dict', idx)
         kind = r.choice(['dict', 'dict', 'set'])
         with_alias = r.random() < 0.25
@@ -654,7 +656,7 @@ def _enc_descr(d):
 STORE_VALUES = ['12738006', '1273800612738006X', 'urn:oid:1.2.840.10008.2.16.4', 'T-A0100']
 STORE_SCHEMES = ['SCT', '99HDV', 'SRT']
 STORE_MEANINGS = ['Brain', 'Entire brain (body structure)', 'third meaning', 'm' * 64]
-STORE_VERSIONS = [None, None, '2020', '2.0']
+STORE_VERSIONS = [None, None, '2020', '2.0', '']
 
 
 def _cell(o):
@@ -662,7 +664,7 @@ def _cell(o):
     return {'cls': 'concept' if isinstance(o, CodedConcept) else 'dataset', 'ds': sorted(_ds_pairs(o))}
 
 
-def _store_histories(ctx, reqs, pending):
+def _store_histories(ctx, reqs, pending, only_idx=None):
     """several concepts made one after the other (constructor, from_code of codes that differ only in meaning /
     version, from_code of a concept, from_dataset copy/alias, deepcopy, pickle), written to through their references;
     after EVERY step every other object must be what it was"""
@@ -671,7 +673,9 @@ def _store_histories(ctx, reqs, pending):
     from pydicom.dataset import Dataset
     from pydicom.sr.coding import Code
     from highdicom.sr.coding import CodedConcept
-    for idx in range(ctx.n(150, 2000)):
+    for idx in range(ctx.n(150, 2000) if only_idx is None else only_idx + 1):
+        if only_idx is not None and idx != only_idx:
+            continue
         r = ctx.rng('store', idx)
         objs = []
         for _ in range(r.choice([0, 1, 2])):
@@ -1010,6 +1014,16 @@ def replay(ctx, case):
     if what == 'from_dataset':
         _from_dataset(sub, [], [], only=case['fd'])
         return sub.failures[:3] or None
+    if what == 'dict-history':
+        objs, alias, _ = _alphabet(sub, 0)
+        _dict_histories(sub, objs, alias, [], [], only_idx=case['idx'])
+        return sub.failures[:2] or None
+    if what == 'store-history':
+        _store_histories(sub, [], [], only_idx=case['idx'])
+        return sub.failures[:2] or None
+    if what == 'file-strings':
+        _file_strings(sub, [], [])
+        return [f for f in sub.failures if f['case'].get('args') == case.get('args')][:2] or None
     if what in ('from_code', 'hash'):
         o = mk(case['obj'])
         c = CodedConcept.from_code(o)
